@@ -31,7 +31,7 @@
 // prog.Init(thread, predeclared). Predeclared = {"trace": builtin}.
 // trace(*args, **kwargs) appends {"args":[v.String()...], "kwargs":[[k, v.String()]...]}
 // to the transcript AT CALL TIME and returns its first positional argument, else None.
-// thread.Load: "m.star" -> {"a": 10, "b": "bee"}; any other module fails.
+// thread.Load: "m.star" -> {"a": 10, "b": "bee", "fl": frozen [1, 2], "fd": frozen {"k": 1}}; any other module fails.
 // thread.SetMaxExecutionSteps(200000): outcome "timeout" when the error text
 // contains "too many steps"/"cancelled". Go panics are recovered: outcome "panic".
 // steps = thread.ExecutionSteps() after the run. On error, for *starlark.EvalError:
@@ -276,7 +276,13 @@ func stmt(s syntax.Stmt) any {
 
 func loader(_ *starlark.Thread, module string) (starlark.StringDict, error) {
 	if module == "m.star" {
-		return starlark.StringDict{"a": starlark.MakeInt(10), "b": starlark.String("bee")}, nil
+		// a fresh module each time: ints, a string, and two FROZEN containers
+		fl := starlark.NewList([]starlark.Value{starlark.MakeInt(1), starlark.MakeInt(2)})
+		fd := starlark.NewDict(1)
+		fd.SetKey(starlark.String("k"), starlark.MakeInt(1))
+		d := starlark.StringDict{"a": starlark.MakeInt(10), "b": starlark.String("bee"), "fl": fl, "fd": fd}
+		d.Freeze()
+		return d, nil
 	}
 	return nil, fmt.Errorf("no such module: %s", module)
 }
